@@ -331,7 +331,7 @@ def langref_classify(w):
     if w in KEYWORDS or w in DOLLAR_WORDS:
         return '"%s"' % w
     if w[0] in DIGIT:
-        if langref_is_number(w):
+        if langref_is_number(w, langref_allows_radix_underscore()):
             return "Number"
         if w[1:2] in ("b", "x", "B", "X"):
             rest = w[2:]
@@ -356,6 +356,35 @@ def langref_classify(w):
 
 
 RADIX_KEY = "number-with-underscore-directly-after-radix-prefix"
+_langref = {}
+
+
+def langref_examples():
+    """Examples of the "Numeric Constant Formats" section of doc/language-reference.md:
+    [(text, allowed)] — first word of every non-comment line of its code blocks; a line whose
+    comment says "Not allowed" is a counter-example."""
+    if "examples" not in _langref:
+        import re
+        out = []
+        try:
+            with open(os.path.join(common.REPO, "doc", "language-reference.md"), encoding="utf-8") as f:
+                text = f.read()
+            sec = text.split("### Numeric Constant Formats", 1)[1]
+            sec = re.split(r"\n#{1,3} ", sec, 1)[0]
+            for block in re.findall(r"```\n(.*?)```", sec, re.S):
+                for line in block.split("\n"):
+                    if line.strip() and not line.lstrip().startswith("#"):
+                        out.append((line.split()[0], "not allowed" not in line.lower()))
+        except (OSError, IndexError):
+            out = []
+        _langref["examples"] = out
+    return _langref["examples"]
+
+
+def langref_allows_radix_underscore():
+    """Does the reference (by example) allow `0x_…` / `0b_…`?  False on the pinned tree; the
+    proposed documentation patch fixes/C10-radix-underscore-doc.patch makes it True."""
+    return any(ok and t[:3] in ("0x_", "0b_") for t, ok in langref_examples())
 
 
 def classification_issues(lines, toks):
@@ -924,6 +953,27 @@ def known_findings(ctx):
                 chk.report_known(k)
 
 
+def doc_examples_check(ctx):
+    """Every example of the reference's numeric-constant section: allowed ⇒ Number,
+    "Not allowed" ⇒ not Number — on the real tokenizer and on the oracle's own predicate."""
+    chk = ctx.chk
+    ex = langref_examples()
+    chk.extra["langref_number_examples"] = len(ex)
+    for text, allowed in ex:
+        chk.count()
+        real = real_tokenize(text)
+        is_num = real[0] == "ok" and len(real[1]) == 2 and real[1][0][0] == "Number" and real[1][0][1] == text
+        if is_num != allowed:
+            chk.violation("input", {"input": text, "observed": canon(real), "what":
+                                    "example of doc/language-reference.md (Numeric Constant Formats) is %s but tokenizes as %s"
+                                    % ("allowed" if allowed else "not allowed", "Number" if is_num else "something else"),
+                                    "expected": "Number" if allowed else "not a Number"})
+        if langref_is_number(text, langref_allows_radix_underscore()) != allowed:
+            chk.violation("correspondence", {"input": text, "theorem_or_correspondence":
+                                             "spec oracle langref_is_number vs the reference's own examples",
+                                             "expected": allowed}, found_input=False)
+
+
 def fixed_findings_inputs():
     out = []
     try:
@@ -1032,12 +1082,13 @@ def _run(tier):
     model = common.Model("model_c10") if model_ok else None
     r = common.rng("C10")
     known_findings(ctx)
+    doc_examples_check(ctx)
     if model is not None:
         charset_correspondence(ctx, model)
         pattern_correspondence(ctx, model, r, 150 if tier == "quick" else 2500)
     run_texts(ctx, base_texts(), model, "corpus+boundary")
-    n = 6000 if tier == "quick" else 300000
-    batch = 3000 if tier == "quick" else 20000
+    n = 20000 if tier == "quick" else 400000
+    batch = 5000 if tier == "quick" else 20000
     done = 0
     while done < n and len(chk.violations) < 20:
         run_texts(ctx, random_texts(r, min(batch, n - done)), model, "generated")
